@@ -47,6 +47,21 @@ pub fn subjects(rng: &mut Rng, extra_random: usize) -> Vec<Subject> {
         let b = "((h41:7ff8000000000000[-],h42:7ff8000000000000[-])-:7ff8000000000000[-],(h43:7ff8000000000000[-],h44:7ff8000000000000[-])-:7ff8000000000000[-])-:-[-]";
         add("all-nan-lengths", b, from_rose(b), false);
     }
+    // long labels mixing 1-, 2-, 3- and 4-byte characters so that EVERY byte offset up to 64 falls inside a character in one of
+    // them (anything that cuts a label at a byte position must cut it at a character boundary), comments likewise
+    {
+        let mut t = Tree::new();
+        let r = t.add(Node::new_named("Île-de-France_isolat_n°_2021-0042"));
+        for k in 0..8usize {
+            let pad = "a".repeat(k);
+            for (j, ch) in ["é", "名", "𝔸"].iter().enumerate() {
+                let mut n = Node::new_named(&format!("{pad}{}", ch.repeat(40)));
+                n.comment = Some(format!("{pad}{}", ch.repeat(30)));
+                t.add_child(n, r, Some((k * 3 + j) as f64)).unwrap();
+            }
+        }
+        add("long-labels-of-mixed-character-widths", "a root and 24 tips named 'a'*k + 40 x (é | 名 | 𝔸), k = 0..7, comments likewise", t, false);
+    }
     // two roots (a forest): constructible with `add`
     {
         let mut t = from_rose("(h41:3ff0000000000000[-],h42:3ff0000000000000[-])-:-[-]");
@@ -222,6 +237,9 @@ pub fn tree_calls(s: &Subject, others: &[Subject]) -> Vec<(String, String, &'sta
     r!("to_formatted_newick", "OnlyNames".to_string(), |c: &mut Tree| c.to_formatted_newick(NewickFormat::OnlyNames));
     r!("to_nexus", String::new(), |c: &mut Tree| c.to_nexus());
     r!("radial_layout", String::new(), |c: &mut Tree| phylotree::tree::draw::radial_layout(c));
+    // infallible converters: Display / Debug of every node and of the tree
+    i!("node.to_string", "every live node".to_string(), |c: &mut Tree| { let mut k = 0; for x in 0..c.size() { if let Ok(nd) = c.get(&x) { k += nd.to_string().len() + format!("{nd:?}").len(); } } k });
+    i!("tree.debug", String::new(), |c: &mut Tree| format!("{c:?}").len());
     r!("print", String::new(), |c: &mut Tree| c.print());
     r!("print_debug", String::new(), |c: &mut Tree| c.print_debug());
     r!("to_file-unwritable", String::new(), |c: &mut Tree| c.to_file(std::path::Path::new("/nonexistent-dir/x.nwk")));
@@ -308,6 +326,18 @@ fn matrix_calls() -> Vec<(String, String, &'static str)> {
         mr!("set-unknown", |mut mm: DistanceMatrix<f64>| mm.set("zz", "t0", 1.0));
         mr!("set-identical-nonzero", |mut mm: DistanceMatrix<f64>| mm.set("t0", "t0", 1.0));
         mr!("set_taxa-wrong-length", |mut mm: DistanceMatrix<f64>| mm.set_taxa(vec!["x".to_string(); n + 1]));
+        // a call that takes the matrix mutably, whether it succeeds or is REFUSED, must leave a matrix every other function can
+        // still be called on: the follow-up battery runs on the object it leaves behind
+        macro_rules! mm_then { ($name:expr, $f:expr) => {{ let mut mm = m.clone(); let fine = guarded(AssertUnwindSafe(|| { let _ = $f(&mut mm); })).is_ok();
+            if fine { if let Some(f2) = matrix_followup(&mm) { push(&format!("{}; then {}", $name, f2), a.clone(), Err(String::new())); } else { push(&format!("{}; then everything", $name), a.clone(), Ok("ok")); } } }}; }
+        mm_then!("set_taxa-too-many", |mm: &mut DistanceMatrix<f64>| mm.set_taxa(vec!["x".to_string(); n + 2]));
+        mm_then!("set_taxa-too-few", |mm: &mut DistanceMatrix<f64>| mm.set_taxa(vec!["x".to_string(); n.saturating_sub(1)]));
+        mm_then!("set_taxa-empty", |mm: &mut DistanceMatrix<f64>| mm.set_taxa(vec![]));
+        mm_then!("set_taxa-right-length", |mm: &mut DistanceMatrix<f64>| mm.set_taxa((0..n).map(|i| format!("u{i}")).collect()));
+        mm_then!("set_taxa-repeated-labels", |mm: &mut DistanceMatrix<f64>| mm.set_taxa(vec!["same".to_string(); n]));
+        mm_then!("set-unknown", |mm: &mut DistanceMatrix<f64>| mm.set("zz", "t0", 1.0));
+        mm_then!("set-identical-nonzero", |mm: &mut DistanceMatrix<f64>| mm.set("t0", "t0", 1.0));
+        mm_then!("set-nan", |mm: &mut DistanceMatrix<f64>| mm.set("t0", "t1", f64::NAN));
         mr!("get_taxa_index-unknown", |mm: DistanceMatrix<f64>| mm.get_taxa_index("zz"));
         mr!("upgma", |mm: DistanceMatrix<f64>| mm.upgma());
         mr!("neighbor_joining", |mm: DistanceMatrix<f64>| mm.neighbor_joining());
@@ -359,6 +389,30 @@ fn matrix_calls() -> Vec<(String, String, &'static str)> {
         }
     }
     out
+}
+
+/// every read-only function and writer of a matrix; returns the first one that panics
+fn matrix_followup(m: &DistanceMatrix<f64>) -> Option<&'static str> {
+    macro_rules! f { ($name:expr, $e:expr) => {{ let mut d = m.clone(); if guarded(AssertUnwindSafe(|| { let _ = $e(&mut d); })).is_err() { return Some($name); } }}; }
+    f!("to_map", |d: &mut DistanceMatrix<f64>| d.to_map().len());
+    f!("min", |d: &mut DistanceMatrix<f64>| d.min());
+    f!("max", |d: &mut DistanceMatrix<f64>| d.max());
+    f!("iter", |d: &mut DistanceMatrix<f64>| d.iter().count());
+    f!("indexed_iter", |d: &mut DistanceMatrix<f64>| d.indexed_iter().count());
+    f!("to_phylip-square", |d: &mut DistanceMatrix<f64>| d.to_phylip(true).map(|s| s.len()));
+    f!("to_phylip-tril", |d: &mut DistanceMatrix<f64>| d.to_phylip(false).map(|s| s.len()));
+    f!("get", |d: &mut DistanceMatrix<f64>| d.get("t0", "t1").map(|v| *v));
+    f!("get-by-every-label", |d: &mut DistanceMatrix<f64>| { let t = d.taxa.clone(); for a in t.iter() { for b in t.iter() { let _ = d.get(a, b); } } });
+    f!("set", |d: &mut DistanceMatrix<f64>| d.set("t0", "t1", 2.0));
+    f!("get_taxa_index", |d: &mut DistanceMatrix<f64>| d.get_taxa_index("t0"));
+    f!("upgma", |d: &mut DistanceMatrix<f64>| d.upgma().map(|t| t.size()));
+    f!("to_file", |d: &mut DistanceMatrix<f64>| {
+        let path = std::env::temp_dir().join(format!("pvh-c20-f-{}-{:p}.phy", std::process::id(), d as *const DistanceMatrix<f64>));
+        let r = d.to_file(&path, true).is_ok();
+        let _ = std::fs::remove_file(&path);
+        r
+    });
+    None
 }
 
 /// generator calls run in a child process: a hang is observed (timeout) rather than suffered
